@@ -62,6 +62,15 @@ def standard_check(plugin, tier, seed, replay=None):
     violations = []       # list of (replay_path, suffix)
     notes = []
 
+    # ---- 0. translators: regenerate Gen/*.v from /repo's current source ----
+    translator_status = None
+    if hasattr(plugin, "pregen"):
+        try:
+            translator_status = plugin.pregen()      # returns a dict / string recorded in the evidence
+        except Exception as ex:                       # a translator that cannot read the source never alarms by itself
+            translator_status = "unavailable: %r" % (ex,)
+        log("[%s] translator: %s" % (prop, translator_status))
+
     # ---- 1. proof step --------------------------------------------------
     proof = core.proof_step(prop, props_files, ["theories/Extract/%sx.vo" % prop])
     if not proof["ok"]:
@@ -184,6 +193,7 @@ def standard_check(plugin, tier, seed, replay=None):
         notes.append("proof step also failed: %s" % proof["failed"])
 
     cov["notes"] = notes
+    cov["translator"] = translator_status
     core.write_evidence(prop, tier, seed, t0, proof, cov, assumptions, len(violations), level=level)
     for path, suffix in violations:
         print("VIOLATION property=%s replay=%s%s" % (prop, path, suffix))
